@@ -35,6 +35,10 @@ type Failure struct {
 	Class  string `json:"class"`  // closed set: panic, value-mismatch, missing-error, ...
 	Key    string `json:"key"`    // check-defined refinement preserved by shrinking
 	Detail string `json:"detail"` // free text: expected vs observed
+	// Sig, when set, names the family of the failure more finely than Key. Shrinking never moves
+	// between signatures, so a new defect cannot slide into the witness of a known one that shares
+	// its class and key; known findings are still matched on class, key and witness only.
+	Sig string `json:"sig,omitempty"`
 }
 
 type abortRun struct{}
@@ -71,6 +75,7 @@ type Ctx struct {
 	trans      int64
 	skip       string
 	fail       *Failure
+	family     string // signature given to any failure of this execution (see Failure.Sig)
 	costly     bool // one execution costs seconds (a subprocess): replay twice instead of five times, do not shrink
 	Tier       string
 }
@@ -170,7 +175,7 @@ func (c *Ctx) Skip(reason string) {
 // Fail records a violation (first one wins).
 func (c *Ctx) Fail(class, key, format string, args ...interface{}) {
 	if c.fail == nil {
-		c.fail = &Failure{Class: class, Key: key, Detail: fmt.Sprintf(format, args...)}
+		c.fail = &Failure{Class: class, Key: key, Detail: fmt.Sprintf(format, args...), Sig: c.family}
 	}
 }
 
@@ -390,7 +395,17 @@ func sameFailure(a, b *Failure) bool {
 	if a == nil || b == nil {
 		return a == b
 	}
-	return a.Class == b.Class && a.Key == b.Key
+	return a.Class == b.Class && a.Key == b.Key && a.Sig == b.Sig
+}
+
+// Family sets the signature any failure of this execution will carry (see Failure.Sig).
+func (c *Ctx) Family(sig string) { c.family = sig }
+
+// Sig refines the failure just recorded by Fail (see Failure.Sig).
+func (c *Ctx) Sig(sig string) {
+	if c.fail != nil {
+		c.fail.Sig = sig
+	}
 }
 
 // Costly marks this execution as expensive (see the costly field).
